@@ -16,8 +16,9 @@ META = {
             "iterator state x {Next, Seek(t)}; 4 inputs x 6 time points x 3 sample types by seeded simulation; chunk level 2-3 inputs x 3 "
             "time points (4 in the thorough tier) exhaustively, 4x6 by simulation; set level 0-4 sets (5-6 thorough) over 3 label sets, "
             "limits 0-2. Iterator errors are out of scope (C54). Counter-reset hints and start timestamps are not compared. The series "
-            "limit and the concatenating merger are outside the property statement (drift only). Known finding KF-C19-1: a sample at "
-            "math.MinInt64 is skipped by chainSampleIterator.Next.",
+            "limit and the concatenating merger are outside the property statement (drift only). Known findings KF-C19-1 (a sample at "
+            "math.MinInt64 is skipped by chainSampleIterator.Next) and KF-C19-2 (re-used iterator object, first call Seek(MinInt64)). Seek "
+            "on an already exhausted iterator is treated as outside the chunkenc.Iterator contract.",
     "technique": "TLA+ reference + transcription (Merge.tla, Chain.tla, Compact.tla) model-checked by TLC; TLC-generated cases replayed into "
                  "storage merge code",
     "design_ref": "DESIGN.md §5 C19, §7 H11",
@@ -25,46 +26,58 @@ META = {
 }
 
 
+def _par(ctx, jobs):
+    """Run several independent TLC jobs concurrently (each its own JVM / scratch dir); results in job order."""
+    from concurrent.futures import ThreadPoolExecutor
+    with ThreadPoolExecutor(max_workers=len(jobs)) as ex:
+        futs = [ex.submit(ctx.tlc, *a, **kw) for a, kw in jobs]
+        res = []
+        err = None
+        for f in futs:
+            try:
+                res.append(f.result())
+            except Exception as e:      # keep the first failure, but let the other JVMs finish
+                err = err or e
+                res.append(None)
+        if err:
+            raise err
+        return res
+
+
 def run(ctx):
     q = ctx.quick
-    # ---- sample level: every transition of the reachable iterator state graph is a replayed behaviour
-    chain = []
-    for cfg in ("MC_chain_quick.cfg", "MC_chain_k3.cfg"):
-        mc = ctx.tlc("merge", "Chain", cfg, workers=8, timeout=900)
-        ctx.account(mc)
-        chain += mc.emitted
-        ctx.log("%s: %d generated / %d distinct, %d behaviours" % (cfg, mc.generated, mc.distinct, len(mc.emitted)))
-    if not q:
-        big = ctx.tlc("merge", "Chain", "MC_chain_big.cfg", timeout=3000)
-        ctx.account(big)
-        ctx.log("MC_chain_big: %d generated / %d distinct" % (big.generated, big.distinct))
     ops = 8 if q else 12
-    sim = ctx.tlc("merge", "Chain", "SIM_chain.cfg", simulate=(60 if q else 4000), depth=24 + ops + 3, workers=8,
-                  constants={"MaxOps": ops}, timeout=(100 if q else 1200))
-    ctx.account(sim)
-    chain += sim.emitted
-    ctx.log("SIM_chain: %d walks" % len(sim.emitted))
-
-    # ---- chunk level: one case per input configuration, all paths of the transcription checked by TLC
-    compact = []
-    for cfg in (["MC_compact_quick.cfg", "MC_compact_k3.cfg"] + ([] if q else ["MC_compact_big.cfg"])):
-        mc = ctx.tlc("merge", "Compact", cfg, workers=8, timeout=3000)
-        ctx.account(mc)
-        compact += mc.emitted
-        ctx.log("%s: %d generated / %d distinct, %d configurations" % (cfg, mc.generated, mc.distinct, len(mc.emitted)))
-    simc = ctx.tlc("merge", "Compact", "SIM_compact.cfg", simulate=(40 if q else 2000), depth=25, workers=8,
-                   timeout=(100 if q else 1200))
-    ctx.account(simc)
-    compact += simc.emitted
-    ctx.log("SIM_compact: %d configurations" % len(simc.emitted))
-
-    # ---- series-set level
-    sets = []
-    for cfg in (["MC_sets_quick.cfg"] + ([] if q else ["MC_sets_big.cfg"])):
-        mc = ctx.tlc("merge", "Merge", cfg, workers=8, timeout=3000)
-        ctx.account(mc)
-        sets += mc.emitted
-        ctx.log("%s: %d generated / %d distinct, %d cases" % (cfg, mc.generated, mc.distinct, len(mc.emitted)))
+    W = 4
+    jobs = [
+        # sample level: every transition of the reachable iterator state graph is a replayed behaviour
+        (("merge", "Chain", "MC_chain_quick.cfg"), dict(workers=W, timeout=1500)),
+        (("merge", "Chain", "MC_chain_k3.cfg"), dict(workers=W, timeout=1500)),
+        (("merge", "Chain", "MC_chain_reuse.cfg"), dict(workers=2, timeout=1500)),
+        (("merge", "Chain", "SIM_chain.cfg"), dict(simulate=(25 if q else 1500), depth=24 + ops + 3, workers=W,
+                                                    constants={"MaxOps": ops}, timeout=(200 if q else 1500))),
+        # chunk level: one case per input configuration, all paths of the transcription checked by TLC
+        (("merge", "Compact", "MC_compact_quick.cfg"), dict(workers=W, timeout=1500)),
+        (("merge", "Compact", "MC_compact_k3.cfg"), dict(workers=W, timeout=1500)),
+        (("merge", "Compact", "MC_compact_t4.cfg"), dict(workers=W, timeout=1500)),
+        (("merge", "Compact", "SIM_compact.cfg"), dict(simulate=(15 if q else 700), depth=25, workers=W,
+                                                        timeout=(200 if q else 1500))),
+        # series-set level
+        (("merge", "Merge", "MC_sets_quick.cfg"), dict(workers=W, timeout=1500)),
+    ]
+    names = ["MC_chain_quick", "MC_chain_k3", "MC_chain_reuse", "SIM_chain", "MC_compact_quick", "MC_compact_k3", "MC_compact_t4", "SIM_compact",
+             "MC_sets_quick"]
+    if not q:
+        jobs += [(("merge", "Chain", "MC_chain_big.cfg"), dict(workers=W, timeout=3000)),
+                 (("merge", "Compact", "MC_compact_big.cfg"), dict(workers=W, timeout=3000)),
+                 (("merge", "Merge", "MC_sets_big.cfg"), dict(workers=W, timeout=3000))]
+        names += ["MC_chain_big", "MC_compact_big", "MC_sets_big"]
+    res = dict(zip(names, _par(ctx, jobs)))
+    chain, compact, sets = [], [], []
+    for n in names:
+        r = res[n]
+        ctx.account(r)
+        ctx.log("%s: %d generated / %d distinct, %d cases emitted, %.0fs" % (n, r.generated, r.distinct, len(r.emitted), r.wall))
+        (chain if "chain" in n else compact if "compact" in n else sets).extend(r.emitted)
 
     if not chain or not compact or not sets:
         import vlib
